@@ -4,6 +4,7 @@
 mod c04;
 mod c05;
 mod c18;
+mod frag;
 mod gen;
 mod interp;
 mod runner;
@@ -25,6 +26,7 @@ fn main() {
         "c09-spec" => words::c09(rest),
         "render-all" => words::render_all(rest),
         "interp-ops" => interp::ops(rest),
+        "c03-spec" => frag::spec(rest),
         "runner" => runner::main(rest),
         "gen-stats" => runner::gen_stats(rest),
         _ => { eprintln!("unknown command {cmd:?}"); 2 }
